@@ -76,7 +76,9 @@ func runC04(c *Ctx) {
 	} else {
 		r.Fn(ana.ShortFunc(decodeFn))
 		db := ana.NewBuilder(c.P, decodeFn)
-		elem := "load(iaddr(faddr<decMap>(p0), index(p1, ext#1(next(range(p1))))))"
+		// the loop over the data part may range over the string or count byte positions: both index every byte
+		idx := "alt(ext#1(next(range(p1))), ind<+1>(0))"
+		elem := "load(iaddr(faddr<decMap>(p0), index(p1, " + idx + ")))"
 		loops := rangeLoops(db)
 		okLoop := false
 		for _, l := range loops {
@@ -90,11 +92,11 @@ func runC04(c *Ctx) {
 					et := db.Of(e.Results[1], e.Instr)
 					vt := db.Of(e.Results[0], e.Instr)
 					if et.Is("nil") {
-						_, ok := ana.Match("obj(makeslice<[]uint8>(len(p1), len(p1)), maybe(store(iaddr(self, ext#1(next(range(p1)))), "+elem+")))", vt)
+						_, ok := ana.Match("obj(makeslice<[]uint8>(len(p1), len(p1)), maybe(store(iaddr(self, "+idx+"), "+elem+")))", vt)
 						r.Check(ok && mustPass(decodeFn, e.Instr.Block(), []ana.Edge{{From: l.Header, To: l.Exit}}), "C04.charset.decode-values", c.ipos(e.Instr), "success: dst[i] = decMap[src[i]] for every i, len(dst) = len(src): %s", short(vt.String(), 200))
 					} else {
 						es := edgesMatching(db, "bin<==>("+elem+", 255)")
-						_, ok := ana.Match("slice(_, 0, ext#1(next(range(p1))))", vt)
+						_, ok := ana.Match("slice(_, 0, "+idx+")", vt)
 						r.Check(mustPass(decodeFn, e.Instr.Block(), plainEdges(es)) && ok, "C04.charset.decode-reject", c.ipos(e.Instr), "error only when the table yields the sentinel 0xFF; returns the prefix decoded so far (its length is the error offset)")
 					}
 				}
@@ -156,9 +158,11 @@ func runC04(c *Ctx) {
 			if forAll(b, *l, "bin<<>(index(p0, ind<+1>(0)), 128)", "bin<<=>(index(p0, ind<+1>(0)), 127)", "bin<<>(ext#2(next(range(p0))), 128)") {
 				asciiLoop = l
 			}
-		case "slice(p0, 0, " + hl + ")":
+		case "slice(p0, 0, " + hl + ")", "upto(" + hl + ")":
+			// s[:hrpLen] ranged as runes, or byte positions 0..hrpLen-1 converted to runes (the string is ASCII there)
+			elems := []string{"call<*>(ext#2(next(range(slice(p0, 0, " + hl + ")))))", "call<*>(conv<rune>(index(p0, ind<+1>(0))))"}
 			for _, ce := range b.CondEdges() {
-				if _, m := ana.Match("call<*>(ext#2(next(range(slice(p0, 0, "+hl+")))))", ce.Lit); m {
+				if _, m := ana.MatchAny(ce.Lit, elems...); m {
 					if h := calleeOf(ce.Lit); h != nil && forAll(b, *l, ce.Lit.String()) {
 						hb := ana.NewBuilder(c.P, h)
 						vs := &ana.VSA{B: hb, Tracked: []string{"p0"}, Ranges: [][2]int64{{0, 400}}}
@@ -193,7 +197,7 @@ func runC04(c *Ctx) {
 	// reject-closed
 	rejectPats = append(rejectPats,
 		"bin<>=>(index(p0, ind<+1>(0)), 128)", "bin<>>(index(p0, ind<+1>(0)), 127)",
-		"un<!>(call<*>(ext#2(next(range(slice(p0, 0, "+hl+"))))))")
+		"un<!>(call<*>(ext#2(next(range(slice(p0, 0, "+hl+"))))))", "un<!>(call<*>(conv<rune>(index(p0, ind<+1>(0)))))")
 	for _, v := range errs {
 		r.Check(c.vrejectClosed(v, rejectPats...), "C04.exits.reject-closed", c.vpos(v), "error return reachable only through a listed reject reason")
 	}
@@ -583,7 +587,7 @@ func c04Bounds(c *Ctx, fn *ssa.Function, b *ana.Builder) {
 			}
 		}
 	}
-	r.Floor("C04.floor.slice-sites", nSites, 4, "slice expressions in Decode")
+	r.Floor("C04.floor.slice-sites", nSites, 2, "slice expressions in Decode")
 	r.Floor("C04.floor.offset-sites", nOff, 7, "SyntaxError.Offset stores in Decode")
 }
 
